@@ -334,8 +334,171 @@ def explore(run, focus, n_random):
             run.disagree("fabric primitives and API calls under the same schedule", cj, diff, None)
 
 
+class Poison:
+    """a subscriber 'queue' whose append raises once: kills the delivery thread that serves it"""
+
+    def __init__(self):
+        self.hits = 0
+
+    def append(self, e):
+        self.hits += 1
+        if self.hits == 1:
+            raise RuntimeError("poisoned subscriber")
+
+
+def explore_faults(run, focus, n):
+    """oracle-only stream (the model has no dying delivery thread): one delivery thread is killed by a subscriber
+    that raises, then the fabric is started again / stopped; at most one live thread per kind, stop() returns,
+    nothing survives it"""
+    rng = run.rng
+    for _ in range(n):
+        kind_dead = rng.choice(["fifo", "lifo"])
+        seed = rng.randrange(1 << 30)
+        r2 = random.Random(seed)
+        max_live = {"fifo": 0, "lifo": 0}
+        errors = []
+        with dsched.Installed():
+            sched = dsched.Sched(dsched.random_chooser(r2), max_steps=3000, yield_filter=yield_filter)
+            dsched.Sched.current = sched
+            try:
+                af = mao.ActiveFabric()
+                sched.name_obj(af.fifo_fabric_queue, "fq")
+                sched.name_obj(af.lifo_fabric_queue, "lq")
+                good = collections.deque(maxlen=50)
+                results = {}
+
+                def settle():
+                    """wait until every other thread is finished or blocked"""
+                    me = sched.me()
+                    sched.yield_point("call.settle", enabled=lambda: all(
+                        t is me or t.finished or not sched.is_enabled(t) for t in sched.threads))
+
+                def client():
+                    sched.yield_point("call.setup")
+                    af.subscribe(Poison(), Event(signal="S0"), queue_type=kind_dead)
+                    af.subscribe(good, Event(signal="S1"), queue_type="fifo")
+                    af.start()
+                    sched.yield_point("call.publish")
+                    af.publish(Event(signal="S0", payload=0))
+                    settle()                        # the poisoned delivery thread is dead now
+                    results["dead"] = [t.name for t in sched.threads if t.finished and t.error is not None]
+                    sched.yield_point("call.start")
+                    af.start()                      # what an ActiveObject does when is_alive() is False
+                    results["alive_after_restart"] = af.is_alive()
+                    sched.yield_point("call.publish")
+                    af.publish(Event(signal="S1", payload=1))
+                    settle()
+                    sched.yield_point("call.stop")
+                    af.stop()
+                    results["stopped"] = True
+                    sched.yield_point("call.publish")
+                    af.publish(Event(signal="S1", payload=2))
+                    settle()
+                sched.spawn(client, (), name="K0")
+
+                def monitor(s, st):
+                    for kd in ("fifo", "lifo"):
+                        nlive = sum(1 for t in s.threads if t.name.startswith(kd + " active fabric") and not t.finished)
+                        max_live[kd] = max(max_live[kd], nlive)
+                sched.monitors.append(monitor)
+                outcome = sched.run()
+                live_end = {kd: sum(1 for t in sched.threads if t.name.startswith(kd + " active fabric") and not t.finished)
+                            for kd in ("fifo", "lifo")}
+                got = [e.payload for e in good]
+                for t in sched.threads:
+                    if t.error is not None and "poisoned subscriber" not in str(t.error):
+                        errors.append("%s: %s: %s" % (t.name, type(t.error).__name__, t.error))
+                cj = {"what": "fabric-fault", "dead": kind_dead, "seed": seed, "schedule": [e[0] for e in sched.trace]}
+            finally:
+                sched.shutdown()
+        run.count("fault stream: %s thread killed" % kind_dead)
+        for kd in ("fifo", "lifo"):
+            if max_live[kd] > 1:
+                run.violate("C13/more-than-one-%s-thread" % kd, "after the %s delivery thread died and start() was called again, %d %s threads "
+                            "were alive at the same time" % (kind_dead, max_live[kd], kd), cj)
+        if errors:
+            run.violate("C13/thread-error", "a thread died: %s" % errors[:2], cj)
+        if not results.get("stopped"):
+            run.violate("C13/call-never-returns", "stop() did not return after a delivery thread had died and the fabric was restarted", cj)
+        else:
+            if live_end["fifo"] or live_end["lifo"]:
+                run.violate("C13/thread-survives-stop", "delivery threads still alive after stop(): %s" % live_end, cj)
+            if results.get("alive_after_restart") is not True:
+                run.violate("C13/is_alive-after-restart", "is_alive() is %r after start() repaired the dead thread" % results.get("alive_after_restart"), cj)
+            if got != [1]:
+                run.violate("C13/delivery-after-restart", "subscriber received %s: expected the publication made while running (1) and not the "
+                            "one made after stop() (2)" % got, cj)
+        run.case(cj, nontrivial=True)
+
+
+def explore_fine(run, focus, n):
+    """oracle-only stream: subscriber queues are yield points, so a client call can land in the middle of a delivery
+    loop (the model delivers atomically); redundant subscribes race a publication"""
+    rng = run.rng
+    for _ in range(n):
+        seed = rng.randrange(1 << 30)
+        r2 = random.Random(seed)
+        nq = rng.randint(2, 4)
+        kind = rng.choice(["fifo", "lifo"])
+        errors = []
+        with dsched.Installed():
+            sched = dsched.Sched(dsched.pct_chooser(r2, depth=r2.randint(1, 3), est_len=60) if r2.random() < 0.5 else dsched.random_chooser(r2),
+                                 max_steps=3000,
+                                 yield_filter=lambda l: yield_filter(l) or l.startswith("sq"))
+            dsched.Sched.current = sched
+            try:
+                af = mao.ActiveFabric()
+                sched.name_obj(af.fifo_fabric_queue, "fq")
+                sched.name_obj(af.lifo_fabric_queue, "lq")
+                qs = []
+                for i in range(nq):
+                    q = dsched.DDeque(maxlen=50)
+                    sched.name_obj(q, "sq%d" % i)
+                    qs.append(q)
+                npub = rng.randint(1, 3)
+
+                def setup_and_publish():
+                    sched.yield_point("call.setup")
+                    for q in qs:
+                        af.subscribe(q, Event(signal="S0"), queue_type=kind)
+                    af.start()
+                    for k in range(npub):
+                        sched.yield_point("call.publish")
+                        af.publish(Event(signal="S0", payload=k))
+
+                def resubscriber():
+                    for _ in range(rng.randint(1, 4)):
+                        sched.yield_point("call.subscribe")
+                        af.subscribe(qs[r2.randrange(nq)], Event(signal="S0"), queue_type=kind)
+                sched.spawn(setup_and_publish, (), name="K0")
+                sched.spawn(resubscriber, (), name="K1")
+                sched.run()
+                got = [[e.payload for e in q.raw()] for q in qs]
+                for t in sched.threads:
+                    if t.error is not None:
+                        errors.append("%s: %s: %s" % (t.name, type(t.error).__name__, t.error))
+                cj = {"what": "fabric-fine", "queues": nq, "kind": kind, "seed": seed, "schedule": [e[0] for e in sched.trace]}
+            finally:
+                sched.shutdown()
+        run.count("fine-grained delivery stream")
+        if errors:
+            run.violate("C06/thread-error", "a thread died: %s" % errors[:2], cj)
+        # K1 may subscribe before K0 has: then that queue is subscribed before the others, nothing else changes;
+        # every queue ends up subscribed before the first publication only if K0's setup ran first — so only
+        # count-exactness per queue is checked for publications made after all queues were subscribed by K0
+        want = sorted(range(npub))
+        for i, g in enumerate(got):
+            if sorted(g) != want:
+                run.violate("C06/delivery-count", "re-subscribing while a publication is being delivered: queue %d received %s, "
+                            "expected each of %s exactly once" % (i, g, want), cj)
+        run.case(cj, nontrivial=True)
+
+
 def replay(case):
     cc = case.get("case", case)
+    if cc.get("what") in ("fabric-fault", "fabric-fine"):
+        print("re-run with the same VERIF_SEED: these streams are seeded by", cc.get("seed"), cc)
+        return 0
     sc = FabScenario.from_json(cc["scenario"])
     fr = run_real(sc, dsched.scripted_chooser(cc["schedule"], then=dsched.round_robin_chooser()))
     out = leanrun.run_driver([sc.encode([t for t, _, _ in modelled_steps(fr)])])[0]
